@@ -27,23 +27,38 @@ class Model:
         self.fam = ex.fam
         self.eps = ex.eps
         self.alpha = ex.alpha
-        if self.fam == "paveba":
+        if self.fam == "paveba" and ex.kind == "rect":
             # the objective-space shift whose facet values are alpha*eps (what the repaired code passes)
             self.slack = np.linalg.solve(self.W, self.alpha * self.eps)
+        elif self.fam == "paveba":
+            self.slack = self.alpha * self.eps  # ellipsoids: per-facet allowance
         else:
             self.slack = ex.slack
         self.boundary = 0
+        self._widths = {}
+
+    def width(self, layer):
+        ex = self.ex
+        if not ex.bandit:
+            return ex.layer_h(layer)
+        if layer not in self._widths:
+            import copy
+
+            c = copy.copy(ex.tmpl)
+            c.round = layer + 1
+            self._widths[layer] = float(c.compute_radius())  # the bandit algorithm's own schedule
+        return self._widths[layer]
 
     def step(self, st, ev):
         """returns successor state or None if a decision fell within tolerance of its boundary"""
         ex = self.ex
         S, P, U = set(st["S"]), set(st["P"]), set(st["U"])
         active = (S | U) if self.fam == "paveba" else (S | P)
-        h = ex.layer_h(st["layer"])
+        h = self.width(st["layer"])
         regs = dict(st["frozen"])
         for i in active:
-            regs[i] = reach.make_region("rect", ex.items[ev.get(i, 0)], ex.mu[i], h)
-        tau = oracles.tau_for(*[r[1] for r in regs.values()], *[r[2] for r in regs.values()]) if regs else TAU_REL
+            regs[i] = reach.make_region(ex.kind, ex.items[ev.get(i, 0)], ex.mu[i], h)
+        tau = reference.tau_of(regs, sorted(regs)) if regs else TAU_REL
         W = self.W
 
         def dom(i, j, slack):
@@ -118,9 +133,17 @@ class Model:
 def run_mreach(unit, res, replay=None):
     _, prop, alg_name, spec, m, K, mu, horizon, budget = unit[:9]
     core.import_vopy()
-    ex = reach.Explorer(prop, alg_name, spec, m, K, mu, horizon, budget, res)  # real steps are counted in res by the explorer
-    if ex.kind != "rect" or ex.bandit or ex.W.shape[0] != ex.W.shape[1]:
-        raise ValueError("model-guided search supports the rectangular GP variants with square cone matrices")
+    contraction = None
+    if alg_name == "PaVeBa":
+        probe = stepmc.build_template(alg_name, spec, K, m, reach.eps_of(), contraction=1.0, noise_var=1.0, delta=0.5)
+        probe.round = 1
+        contraction = float(probe.compute_radius()) / (2 * reach.U_UNIT)  # round-1 radius ~ 2u, as in checks/reach.py
+    ex = reach.Explorer(prop, alg_name, spec, m, K, mu, horizon, budget, res, contraction=contraction)  # real steps are counted in res
+    if ex.fam == "auer" or (ex.kind == "rect" and ex.W.shape[0] != ex.W.shape[1]):
+        raise ValueError("model-guided search: PaVeBa family (rectangles need a square cone matrix) and VOGP family")
+    if len(unit) > 9 and unit[9]:
+        ex.items = [ex.items[k] for k in unit[9] if k < len(ex.items)]  # reduced menu (ellipsoids: the model itself is dearer)
+        ex.pair_items = [k for k in range(1, len(ex.items))]
     model = Model(ex)
     st0 = {"S": set(range(K)), "P": set(), "U": set(), "layer": 0, "budget": budget, "frozen": {}}
     frontier = {ex.canon(st0): (st0, [])}
